@@ -720,4 +720,59 @@ example : ((MJ.Compile.compileTemplate (childProg ++ layoutProg)).bind fun code 
 
 end Examples
 
+/-! ## keyword arguments: static fast path = dynamic path -/
+
+theorem assocGet_none_of_not_key {α : Type} (k : String) : ∀ (l : List (String × α)), k ∉ l.map (·.1) → assocGet k l = none
+  | [], _ => by simp [assocGet]
+  | (k1, v1) :: rest, h => by
+    have h1 : ¬ k1 = k := fun e => h (by simp [e])
+    have h2 : k ∉ rest.map (·.1) := fun m => h (by simp [m])
+    simp [assocGet, h1, assocGet_none_of_not_key k rest h2]
+
+/-- the constant bundle of the static fast path holds, under every name, the literal written for it -/
+theorem staticKwargs_lits : ∀ (kws : List (String × Lit)), (kws.map (·.1)).Nodup →
+    ∃ m, MJ.Compile.staticKwargs (kws.map fun p => (p.1, Expr.const p.2)) = some m ∧
+      ∀ k, assocGet k m = assocGet k (kws.map fun p => (p.1, litVal p.2))
+  | [], _ => ⟨[], by simp [MJ.Compile.staticKwargs], fun k => by simp [assocGet]⟩
+  | (k0, l0) :: rest, hnd => by
+    have hnd' : (rest.map (·.1)).Nodup := (List.nodup_cons.1 (by simpa using hnd)).2
+    have hknot : k0 ∉ rest.map (·.1) := (List.nodup_cons.1 (by simpa using hnd)).1
+    obtain ⟨m', hm', hget⟩ := staticKwargs_lits rest hnd'
+    have hk0 : assocGet k0 m' = none := by
+      rw [hget k0]
+      exact assocGet_none_of_not_key k0 _ (by simpa [List.map_map, Function.comp_def] using hknot)
+    refine ⟨mapInsert k0 (litVal l0) m', by simp [MJ.Compile.staticKwargs, hm', hk0], fun k => ?_⟩
+    rw [MJ.Vm.assocGet_mapInsert]
+    by_cases h : k = k0
+    · subst h; simp [assocGet]
+    · have : ¬ k0 = k := fun e => h e.symm
+      simp [assocGet, h, this, hget k]
+
+/-- **the static and the dynamic keyword-argument path of `compile_call_args` make the same call**: for
+keyword arguments that are all literals (distinct names) the constant bundle of the fast path
+(`LoadConst Kwargs{…}`, `MJ.Compile.staticKwargs`) and the bundle `BuildKwargs` builds from the
+`LoadConst name; LoadConst literal` pairs of the slow path (`insertPairs`, what `MJ.Vm.step` runs) hold the
+same value under every name — `Macro::prepare_args` (`bindArgs`) reads the bundle by name only.  (Call
+blocks always take the slow path: `cStmt (.callBlock …)` has no static branch, and the regenerated
+instruction streams are compared with it on every generated call block.) -/
+theorem static_kwargs_eq_dynamic (kws : List (String × Lit)) (hnd : (kws.map (·.1)).Nodup) :
+    ∃ m d, MJ.Compile.staticKwargs (kws.map fun p => (p.1, Expr.const p.2)) = some m ∧
+      insertPairs (kws.map fun p => (Val.str p.1, litVal p.2)) [] = .ok d ∧
+      ∀ k, assocGet k m = assocGet k d := by
+  obtain ⟨m, hm, hget⟩ := staticKwargs_lits kws hnd
+  have hnd2 : ((kws.map fun p => (p.1, litVal p.2)).map (·.1)).Nodup := by
+    have e : (kws.map fun p => (p.1, litVal p.2)).map (·.1) = kws.map (·.1) := by simp [List.map_map, Function.comp_def]
+    rw [e]; exact hnd
+  obtain ⟨d, hd, hdget⟩ := MJ.Vm.insertPairs_kw (kws.map fun p => (p.1, litVal p.2)) [] hnd2 (fun k _ => by simp [assocGet])
+  have e2 : ((kws.map fun p => (p.1, litVal p.2)).map fun p => (Val.str p.1, p.2)) = kws.map fun p => (Val.str p.1, litVal p.2) := by
+    simp [List.map_map, Function.comp_def]
+  rw [e2] at hd
+  refine ⟨m, d, hm, hd, fun k => ?_⟩
+  rw [hget k, hdget k]
+  cases assocGet k (kws.map fun p => (p.1, litVal p.2)) <;> simp [assocGet]
+
+example : ∃ m d, MJ.Compile.staticKwargs [("title", Expr.const (.str "x")), ("n", Expr.const (.int 2))] = some m ∧
+    insertPairs [(Val.str "title", .str "x"), (Val.str "n", .int 2)] [] = .ok d ∧ ∀ k, assocGet k m = assocGet k d :=
+  static_kwargs_eq_dynamic [("title", .str "x"), ("n", .int 2)] (by decide)
+
 end MJ.C03
